@@ -17,9 +17,10 @@
 (* Deps' operators and prints one JSON line per failing clause.  Python    *)
 (* never compares anything.                                                *)
 (***************************************************************************)
-EXTENDS Deps, TLC, Json, IOUtils
+EXTENDS Deps, Json, IOUtils
 
-Recs == ndJsonDeserialize(IOEnv.RECS_FILE)
+(* parsed once, in Init (single worker) *)
+Recs == TLCGet(1)
 
 NodesOf(r) ==
     CASE r.fam = "struct" -> AllIds(r)
@@ -39,11 +40,8 @@ SrcKeepsSourceOrder(r) ==
     IN  /\ IsPerm(src, FieldIds(r))
         /\ \A a, b \in DOMAIN src : (a < b /\ src[a] <= r.n /\ src[b] <= r.n) => src[a] < src[b]
 
-Failures(r) ==
-    LET N == NodesOf(r)
-        E == GraphOf(r)
-        cyc == HasCycle(N, E)
-        on == OnCycle(N, E)
+Failures(r, N, E, on) ==
+    LET cyc == on # {}
         o == r.obs
         F(c, e, g) == [id |-> r.id, clause |-> c, expected |-> ToString(e), got |-> ToString(g)]
     IN  (IF o.hang THEN {F("hang", "terminates", "watchdog")} ELSE {})
@@ -69,22 +67,15 @@ Failures(r) ==
                          ELSE {})
               ELSE {})
 
-(* informational: do the reported groups coincide with the nontrivial SCCs?
-   (compiler-design.md describes the report as the SCCs; the property only
-   demands rejection, so a difference is counted, not failed)               *)
-SccExact(r) ==
-    LET N == NodesOf(r) E == GraphOf(r)
-    IN  Groups(r) = NontrivialSCCs(N, E)
-
-Class(r) ==
-    LET N == NodesOf(r) E == GraphOf(r)
-    IN  IF HasCycle(N, E)
-        THEN IF \E a \in N : <<a, a>> \in E THEN
-                 (IF \E c \in NontrivialSCCs(N, E) : Cardinality(c) > 1 THEN "cyc-self+multi" ELSE "cyc-self")
-             ELSE IF Cardinality(NontrivialSCCs(N, E)) > 1 THEN "cyc-several-sccs"
-             ELSE IF \E c \in NontrivialSCCs(N, E) : Cardinality(c) > 2 THEN "cyc-long" ELSE "cyc-2"
-        ELSE IF r.fam # "struct" THEN "acyclic"
-        ELSE IF Respects(r.obs.src, FieldIds(r), E) THEN "acyclic-src-topological" ELSE "acyclic-reorder-needed"
+(* classification of the case for the evidence file (which kinds of graph were seen) *)
+Class(r, N, E, sccs) ==
+    IF sccs # {}
+    THEN IF \E a \in N : <<a, a>> \in E THEN
+             (IF \E c \in sccs : Cardinality(c) > 1 THEN "cyc-self+multi" ELSE "cyc-self")
+         ELSE IF Cardinality(sccs) > 1 THEN "cyc-several-sccs"
+         ELSE IF \E c \in sccs : Cardinality(c) > 2 THEN "cyc-long" ELSE "cyc-2"
+    ELSE IF r.fam # "struct" THEN "acyclic"
+    ELSE IF Respects(r.obs.src, FieldIds(r), E) THEN "acyclic-src-topological" ELSE "acyclic-reorder-needed"
 
 VARIABLES i, nfail, stats
 vars == <<i, nfail, stats>>
@@ -92,18 +83,28 @@ vars == <<i, nfail, stats>>
 Classes == {"cyc-self+multi", "cyc-self", "cyc-several-sccs", "cyc-long", "cyc-2", "acyclic",
             "acyclic-src-topological", "acyclic-reorder-needed", "scc-inexact"}
 
-Init == i = 0 /\ nfail = 0 /\ stats = [c \in Classes |-> 0]
+Init == TLCSet(1, ndJsonDeserialize(IOEnv.RECS_FILE)) /\ i = 0 /\ nfail = 0 /\ stats = [c \in Classes |-> 0]
 
+(* Everything derived from the record is bound by \E over a singleton set, so that
+   TLC evaluates it exactly once (a LET may be re-evaluated at every use).
+
+   informational "scc-inexact": do the reported groups coincide with the nontrivial
+   SCCs?  (compiler-design.md describes the report as the SCCs; the property only
+   demands rejection, so a difference is counted, not failed)                    *)
 Step ==
     /\ i < Len(Recs)
-    /\ LET r == Recs[i + 1]
-           fs == Failures(r)
-           cl == IF r.obs.hang \/ r.obs.exc # "" \/ fs # {} THEN "none" ELSE Class(r)
-           inexact == cl \in {"cyc-self+multi", "cyc-self", "cyc-several-sccs", "cyc-long", "cyc-2"} /\ ~SccExact(r)
-       IN  /\ \A f \in fs : PrintT(ToJson(f))
-           /\ nfail' = nfail + Cardinality(fs)
-           /\ stats' = [c \in Classes |->
-                           stats[c] + (IF c = cl \/ (c = "scc-inexact" /\ inexact) THEN 1 ELSE 0)]
+    /\ \E r \in {Recs[i + 1]} :
+       \E N \in {NodesOf(r)} :
+       \E E \in {GraphOf(r)} :
+       \E on \in {OnCycle(N, E)} :
+       \E sccs \in {TLCEval({SCCOf(E, a) : a \in on})} :
+       \E fs \in {Failures(r, N, E, on)} :
+       \E cl \in {IF fs # {} THEN "none" ELSE Class(r, N, E, sccs)} :
+         LET inexact == fs = {} /\ sccs # {} /\ Groups(r) # sccs
+         IN  /\ \A f \in fs : PrintT(ToJson(f))
+             /\ nfail' = nfail + Cardinality(fs)
+             /\ stats' = [c \in Classes |->
+                             stats[c] + (IF c = cl \/ (c = "scc-inexact" /\ inexact) THEN 1 ELSE 0)]
     /\ i' = i + 1
 
 Done ==
